@@ -4,11 +4,12 @@ The correspondence check compares the model with the code only on the inputs the
 the current source that no generated input executes is a statement about which the tie says nothing - and a changed
 tree is exactly where such statements appear (a new special case, a new early return, a new error branch).  The gate
 makes that visible: the harness is built with Go's statement-coverage counters in go-webdav's packages, and for the
-functions a property OWNS (props_index.json, "owns": the functions its model mirrors) the number of basic blocks that
-the property's families never executed must not exceed the number recorded for the same function on the pinned tree
-(vf/cov_baseline.json: the maximum over several seeds and both tiers, so a block that is reached only sometimes is
-already counted there).  Counting per function rather than pinning block texts keeps a reworded message or a renamed
-variable inside a block that was never reachable (EACCES as root, reflection errors) from raising an alarm.
+functions a property OWNS (props_index.json, "owns": the functions its model mirrors) the number of STATEMENTS in
+blocks the property's families never executed, summed per source file, must not exceed the sum recorded for the owned
+functions of that file on the pinned tree (vf/cov_baseline.json: per function the maximum over several seeds, so a
+statement that is reached only sometimes is already counted there).  Counting statements per file rather than pinning
+block texts keeps a reworded message, a renamed variable, restructured control flow or code moved into a helper from
+raising an alarm as long as nothing new is left unexecuted.
 
 An excess is first escalated (the caller re-runs the families with two more seeds and merges the counters); what stays
 unexecuted is reported as a broken correspondence naming the function and the block texts.
@@ -96,8 +97,10 @@ def owned(owns, rel, fn):
 
 
 def observe(repo, prof, owns, known_functions=None):
-    """{"file:func": {"uncovered": n, "blocks": total, "texts": [...]}} for the owned functions.  A function the
-    pinned tree does not have (a new helper) counts as owned by every property that owns something in its file."""
+    """{"file:func": {"uncovered": statements in never-executed blocks, "stmts": all statements, "texts": [...]}} for the
+    owned functions.  A function the pinned tree does not have (a new helper) counts as owned by every property that
+    owns something in its file.  Statements rather than blocks are counted: restructuring control flow splits and merges
+    blocks but does not change how many statements are never executed."""
     obs = {}
     owned_files = {pat.partition(":")[0] for pat in owns}
     for k, (n, c) in sorted(prof.items()):
@@ -106,10 +109,10 @@ def observe(repo, prof, owns, known_functions=None):
         new_helper = known_functions is not None and rel in owned_files and (rel + ":" + fn) not in known_functions
         if not owned(owns, rel, fn) and not new_helper:
             continue
-        e = obs.setdefault(rel + ":" + fn, {"uncovered": 0, "blocks": 0, "texts": []})
-        e["blocks"] += 1
-        if c == 0:
-            e["uncovered"] += 1
+        e = obs.setdefault(rel + ":" + fn, {"uncovered": 0, "stmts": 0, "texts": []})
+        e["stmts"] += n
+        if c == 0 and n > 0:
+            e["uncovered"] += n
             e["texts"].append("%s:%d: %s" % (rel, k[1], block_text(repo, rel, k)))
     return obs
 
@@ -126,12 +129,22 @@ def load_baseline(root):
 
 
 def excess(pid, obs, baseline):
-    """Owned functions with more never-executed blocks than the pinned tree ever showed."""
+    """Source files in which the owned functions (and new helpers) together have more never-executed statements than the
+    pinned tree ever showed for the owned functions of that file.  Aggregating per file lets code move between the
+    functions of a file, or into a new helper, without an alarm; a new branch no input reaches adds statements."""
     base = (baseline or {}).get(pid, {})
+    allowed, seen, funcs = {}, {}, {}
+    for key, v in base.items():
+        allowed[key.split(":")[0]] = allowed.get(key.split(":")[0], 0) + v
+    for key, e in obs.items():
+        f = key.split(":")[0]
+        seen[f] = seen.get(f, 0) + e["uncovered"]
+        if e["uncovered"] > base.get(key, 0):
+            funcs.setdefault(f, []).append({"function": key, "never_executed_statements": e["uncovered"],
+                                            "on_pinned_tree_at_most": base.get(key, 0), "unexecuted": e["texts"]})
     out = []
-    for key, e in sorted(obs.items()):
-        allowed = base.get(key, 0)
-        if e["uncovered"] > allowed:
-            out.append({"function": key, "unexecuted_blocks": e["uncovered"], "allowed_on_pinned_tree": allowed,
-                        "blocks": e["blocks"], "unexecuted": e["texts"]})
+    for f in sorted(seen):
+        if seen[f] > allowed.get(f, 0):
+            out.append({"file": f, "never_executed_statements_in_owned_functions": seen[f],
+                        "allowed_on_pinned_tree": allowed.get(f, 0), "functions_above_their_own_count": funcs.get(f, [])})
     return out
